@@ -30,6 +30,11 @@ def cases(tier):
         mdp_specs("average", min_states=2, max_states=mx, connect=False),
         mdp_specs("average", min_states=3, max_states=mx, connect=False, max_out=2,
                   absorbing_kinds=("n", "n", "n", "n", "n", "n", "n", "abs")),
+        # several closed classes with different gains plus large one-off rewards on the way into them
+        mdp_specs("average", min_states=4, max_states=mx + 1, connect=False, max_out=2, max_actions=3, reward_lo=-2, reward_hi=9,
+                  absorbing_kinds=("n", "n", "n", "n", "n", "abs")),
+        mdp_specs("average", min_states=4, max_states=mx + 1, connect=False, max_out=1, max_actions=3, reward_lo=-2, reward_hi=9,
+                  absorbing_kinds=("n", "n", "n", "n", "n", "abs")),
     )
 
 
@@ -131,5 +136,5 @@ def prop_reuse(case, ctx):
 
 PROPS = [Prop("reuse", lambda tier: reuse_cases(tier), prop_reuse, quick=200, thorough=12000,
               doc="a MultichainPolicyIteration object reused on a second MDP gives the same result as a fresh one"),
-         Prop("mpi", cases, prop_mpi, quick=3000, thorough=180000,
+         Prop("mpi", cases, prop_mpi, quick=5000, thorough=180000,
               doc="MultichainPolicyIteration vs discounted V* / optimal gain (LP and enumeration)")]
